@@ -47,7 +47,7 @@ DEFS = {
    "In-process exit-status emulation (SystemExit code / uncaught exception -> 1) is validated against the real process only in the thorough tier. Dynamic I/O faults rely on the CLI opening files through cli.Path.open / cli.open; state faults do not.",
    "deterministic simulation: fault enumeration (state faults in a scratch file system, interposed I/O errors, trace-based crash points) over in-process CLI runs, final-state + event-log oracle"),
  "C14": ("exploration",
-   "Seeded search over process histories: sequences of 2-4 (thorough: up to 6) GEN / RENDER operations over 1-3 registry slots in one process, including calls killed by an injected crash at a seeded line event in-process CLI runs that mutate the process-global default string-type registry, and caller objects re-used across calls (one kwargs dict, one StringSerializableRegistry with types removed in between, one MetadataGenerator, one list of comparators); every non-crashing GEN/RENDER must produce byte-identical output to the same call in a pristine forked process after only the GEN of its slot. Nested layout only on tree-shaped graphs, unicode option fixed per slot (the property's own domain). Sampling of histories, not enumeration.",
+   "Seeded search over process histories: sequences of 2-4 (thorough: up to 6) GEN / RENDER operations over 1-3 registry slots in one process, including calls killed by an injected crash at a seeded line event in-process CLI runs that mutate the process-global default string-type registry, and caller objects re-used across calls (one kwargs dict, one StringSerializableRegistry with types removed in between, one MetadataGenerator, one list of comparators) and pairs of judged in-process CLI commands on the same paths with the files rewritten in between; every non-crashing GEN/RENDER must produce byte-identical output to the same call in a pristine forked process after only the GEN of its slot. Nested layout only on tree-shaped graphs, unicode option fixed per slot (the property's own domain). Sampling of histories, not enumeration.",
    "DESIGN.md 4.3",
    "Both sides run with insertion-ordered sets, so only state carried through the process can make them differ. Inside the claimed domain the absolute-reference mapping is always empty, so an un-restored reference context is not observable here (C15 covers it).",
    "deterministic simulation: seeded history machine with trace-based crash injection, differential oracle vs pristine forked process, ddmin of the operation list"),
